@@ -106,6 +106,7 @@
 #endif
 
 #include <xercesc/util/TransService.hpp>
+#include <xercesc/util/VerifHooks.hpp>
 #if XERCES_USE_TRANSCODER_ICU
 #	include <xercesc/util/Transcoders/ICU/ICUTransService.hpp>
 #endif
@@ -185,7 +186,10 @@ void XMLPlatformUtils::Initialize(const char*          const locale
     gInitFlag++;
 
     if (gInitFlag > 1)
+    {
+      VERIF_EV("Init", "count,usermgr,adopted", gInitFlag, memoryManager != 0, fgMemMgrAdopted);
       return;
+    }
 
     // Set pluggable memory manager
     if (!fgMemoryManager)
@@ -305,6 +309,10 @@ void XMLPlatformUtils::Initialize(const char*          const locale
     // Initialize static data.
     //
     XMLInitializer::initializeStaticData();
+#ifdef XERCES_VERIF_HOOKS
+    if (getenv("XERCES_VERIF_TRACE") && !gVerifSink) verifOpenTrace(getenv("XERCES_VERIF_TRACE"));
+    VERIF_EV("Init", "count,usermgr,adopted", gInitFlag, memoryManager != 0, fgMemMgrAdopted);
+#endif
 }
 
 void XMLPlatformUtils::Initialize(XMLSize_t initialDOMHeapAllocSize
@@ -339,7 +347,10 @@ void XMLPlatformUtils::Terminate()
     gInitFlag--;
 
     if (gInitFlag > 0)
+    {
+	VERIF_EV("Term", "count", gInitFlag);
 	return;
+    }
 
     // Terminate static data.
     //
@@ -393,6 +404,7 @@ void XMLPlatformUtils::Terminate()
 
     // And say we are no longer initialized
     gInitFlag = 0;
+    VERIF_EV("Term", "count", gInitFlag);
 }
 
 
@@ -1093,3 +1105,89 @@ int XMLPlatformUtils::searchSlashDotDotSlash(XMLCh* const srcPath)
 
 
 }
+
+#ifdef XERCES_VERIF_HOOKS
+// ---------------------------------------------------------------------------
+//  Verification hooks: sink pointer and the built-in ndjson sink
+// ---------------------------------------------------------------------------
+#include <stdio.h>
+#include <string.h>
+#include <atomic>
+#include <mutex>
+namespace XERCES_CPP_NAMESPACE {
+VerifSinkFn gVerifSink = 0;
+VerifSchedFn gVerifSched = 0;
+static FILE* gVerifFile = 0;
+static std::mutex gVerifMutex;
+static long long gVerifSeq = 0;
+static std::atomic<int> gVerifThreads(0);
+
+int verifThreadIndex()
+{
+    static thread_local int idx = -1;
+    if (idx < 0) idx = gVerifThreads++;
+    return idx;
+}
+
+static void verifJsonString(FILE* f, const char* s)
+{
+    fputc('"', f);
+    for (; *s; s++) {
+        unsigned char c = (unsigned char)*s;
+        if (c == '"' || c == '\\') { fputc('\\', f); fputc(c, f); }
+        else if (c < 0x20) fprintf(f, "\\u%04x", c);
+        else fputc(c, f);
+    }
+    fputc('"', f);
+}
+
+static void verifNdjsonSink(const char* ev, const char* str, const char* keys, const long long* vals, int n)
+{
+    int t = verifThreadIndex();
+    std::lock_guard<std::mutex> g(gVerifMutex);
+    if (!gVerifFile) return;
+    fprintf(gVerifFile, "{\"e\":\"%s\",\"q\":%lld,\"t\":%d", ev, ++gVerifSeq, t);
+    const char* k = keys;
+    for (int i = 0; i < n; i++) {
+        const char* e = strchr(k, ',');
+        int len = e ? (int)(e - k) : (int)strlen(k);
+        fprintf(gVerifFile, ",\"%.*s\":%lld", len, k, vals[i]);
+        k = e ? e + 1 : k + len;
+    }
+    if (str) { fputs(",\"s\":", gVerifFile); verifJsonString(gVerifFile, str); }
+    fputs("}\n", gVerifFile);
+}
+
+bool verifOpenTrace(const char* path)
+{
+    std::lock_guard<std::mutex> g(gVerifMutex);
+    if (gVerifFile) fclose(gVerifFile);
+    gVerifFile = fopen(path, "a");
+    if (!gVerifFile) return false;
+    setvbuf(gVerifFile, 0, _IOFBF, 1 << 16);
+    gVerifSink = verifNdjsonSink;
+    return true;
+}
+
+void verifFlushTrace()
+{
+    std::lock_guard<std::mutex> g(gVerifMutex);
+    if (gVerifFile) fflush(gVerifFile);
+}
+
+void verifCloseTrace()
+{
+    std::lock_guard<std::mutex> g(gVerifMutex);
+    gVerifSink = 0;
+    if (gVerifFile) { fclose(gVerifFile); gVerifFile = 0; }
+}
+
+void verifRaw(const char* jsonLine)
+{
+    std::lock_guard<std::mutex> g(gVerifMutex);
+    if (!gVerifFile) return;
+    fputs(jsonLine, gVerifFile);
+    fputc('\n', gVerifFile);
+}
+}
+#endif
